@@ -19,7 +19,8 @@ RULE = ('2-3 real threads, each with its own compiled workbook and program (iter
         'history; from_file of plain and iterative models; set_value + trim_graph; acyclic book '
         'in iterative mode; in 3 percent of the randomly scheduled runs of the thorough tier a 400-cell chain that '
         'exhausts the interpreter\'s recursion limit and has to fail the same way next to other '
-        'threads), models built inside or outside the thread, threads fresh or '
+        'threads), compiled from an in-memory workbook or (a quarter of them) from a workbook '
+        'file, models built inside or outside the thread, threads fresh or '
         'warmed-up with another workbook, started as plain threading.Thread or (a quarter of the '
         'randomly scheduled runs) inside a copy of the contextvars context of a starter thread '
         'that has used the library, as asyncio.to_thread does; exactly one thread runs at a time and every switch is '
@@ -234,6 +235,8 @@ def draw_program(rnd, tname, kind):
     p['build'] = rnd.choice(('inside', 'inside', 'outside'))
     if kind == 'deep':
         p['build'] = 'inside'
+    if kind in ('plain', 'iter-acyclic', 'array', 'iterative') and rnd.random() < 0.25:
+        p['xlsx'] = True       # compiled from a workbook file instead of an in-memory workbook
     p['warm'] = rnd.random() < 0.4
     return p
 
@@ -326,8 +329,14 @@ def legalise(case):
 def make_model(prog, tmp, suffix):
     """build (or save+describe) the model of a program; runs on the calling thread"""
     from pycel import ExcelCompiler
-    wb = wbgen.to_workbook(prog['spec'])
-    model = ExcelCompiler(excel=wb, plugins=('sim.plugin',))
+    if prog.get('xlsx'):
+        # load of a workbook *file* (openpyxl reader, pycel's patches of it) on this thread
+        path = os.path.join(tmp, f'{prog["name"]}-{suffix}.xlsx')
+        wbgen.to_xlsx(prog['spec'], path, {})
+        model = ExcelCompiler(filename=path, plugins=('sim.plugin',))
+    else:
+        wb = wbgen.to_workbook(prog['spec'])
+        model = ExcelCompiler(excel=wb, plugins=('sim.plugin',))
     if prog['kind'] == 'load':
         for c in prog['spec']['cells']:
             try:
